@@ -169,6 +169,12 @@ func serverConfigPB(s *spec.Server) *appctlpb.ServerConfig {
 	if s.UDPPort != 0 {
 		cfg.PortBindings = append(cfg.PortBindings, &appctlpb.PortBinding{Port: proto.Int32(int32(s.UDPPort)), Protocol: appctlpb.TransportProtocol_UDP.Enum()})
 	}
+	for _, pt := range s.ExtraTCPPorts {
+		cfg.PortBindings = append(cfg.PortBindings, &appctlpb.PortBinding{Port: proto.Int32(int32(pt)), Protocol: appctlpb.TransportProtocol_TCP.Enum()})
+	}
+	for _, pt := range s.ExtraUDPPorts {
+		cfg.PortBindings = append(cfg.PortBindings, &appctlpb.PortBinding{Port: proto.Int32(int32(pt)), Protocol: appctlpb.TransportProtocol_UDP.Enum()})
+	}
 	if s.MTU != 0 {
 		cfg.Mtu = proto.Int32(int32(s.MTU))
 	}
